@@ -565,6 +565,24 @@ func execC18Bulk(t *testing.T, p Plan, src kernel.Source) Result {
 					v = uint64(g.n(1000))
 				case 1:
 					v = g.r.Uint64() >> uint(g.n(64))
+				case 4:
+					// a constant first period, then a two-point distribution around that constant:
+					// a leftover of the first period would sit exactly on the median rank
+					switch len(periods) {
+					case 0:
+						v = 500
+					case 1:
+						v = 7
+					default:
+						v = 900
+						if i < (n+1)/2 {
+							v = 100
+						}
+					}
+				case 3:
+					// a range of its own per period: a value left over from another period
+					// cannot pass for one of this period's
+					v = uint64(len(periods)+1)*100000 + i%5000
 				default:
 					v = 5 + i
 				}
@@ -674,6 +692,20 @@ func enumC18(tier string) []Plan {
 			}
 		}
 	}
+	// boundary sequences without concurrency: three periods around the ring buffer's size
+	// on alternating buffers (the third period gets the first one's buffer back), every
+	// period with a value range of its own
+	for _, a := range []uint64{32768, 32769, 40000} {
+		for _, b := range []uint64{1, 32767} {
+			for _, c := range []uint64{32767, 32768} {
+				id++
+				out = append(out, Plan{Prop: "C18", Seed: uint64(0xC18100 + id), Mode: "bulk", XV: [][]uint64{{a, b, c}},
+					X: map[string]int64{"sampled": 0, "dist": 3}})
+				out = append(out, Plan{Prop: "C18", Seed: uint64(0xC18200 + id), Mode: "bulk", XV: [][]uint64{{a, b, c}},
+					X: map[string]int64{"sampled": 0, "dist": 4}})
+			}
+		}
+	}
 	return out
 }
 
@@ -755,7 +787,7 @@ func init() {
 	register(&Prop{
 		ID: "C18", Gen: genC18, Exec: execC18, Enumerate: enumC18,
 		Nontrivial: func(p Plan, r Result) bool { return true },
-		Rule:       "70% interleave runs: 1-4 observer tasks (1-4 observations each: small values, powers of two and neighbours, 2^63-1, random magnitudes; each followed by IncCounterBy(value) and IncCounter) and one reader task (two in a third of the runs, i.e. overlapping scrapes) calling the real /metrics handler 0-3 times; every atomic operation of an observer and every lock operation of package metrics parks and is released by the kernel, so observers and the reader interleave at atomic-operation and lock granularity. In a tenth of the interleave runs the first period is prefilled with 32767-40000 large observations (the ring buffer's size and its neighbours) before the tasks start; an enumerated family of 32 boundary schedules does the same with a scripted schedule (the scrape is driven to the point between extracting and sorting the full period, one or two whole observations of the next period are made there, then the run continues randomly) for every combination of prefill size, sampled or not, and which of the two buffers is live. Periods are reconstructed from the lock log (an observation belongs to the read - of whichever reader - that next takes the histogram's write lock). Per read: count = observations of the period, kept consistent, average, min and max equal, every percentile within [min,max] and one of the period's observations; counters equal the sum / number of increments; in a third of the runs with two or more observers every observer first registers a counter of its own (concurrent registration) and counts on it: it must be reported under its own name with its own sum. 20% bulk runs (no yields): 1..40 or {1,2,3,32767,32768,32769} (thorough also 65536, 65537, 100000) observations per period, several periods, three value distributions. 10% supplementary pure-input sweep (not simulation): bucket index read back through the bhist_* counters is non-decreasing in the value and its upper bound, from a table regenerated from the published Spectator algorithm, is >= the value. Not claimed: asm vs portable bit count; literal data-race freedom. Distinct = distinct plan hash",
+		Rule:       "70% interleave runs: 1-4 observer tasks (1-4 observations each: small values, powers of two and neighbours, 2^63-1, random magnitudes; each followed by IncCounterBy(value) and IncCounter) and one reader task (two in a third of the runs, i.e. overlapping scrapes) calling the real /metrics handler 0-3 times; every atomic operation of an observer and every lock operation of package metrics parks and is released by the kernel, so observers and the reader interleave at atomic-operation and lock granularity. In a tenth of the interleave runs the first period is prefilled with 32767-40000 large observations (the ring buffer's size and its neighbours) before the tasks start; an enumerated family of 24 three-period sequences (32768 / 32769 / 40000, then 1 / 32767, then 32767 / 32768 observations; once with a value range of its own per period, once with a constant first period and a two-point distribution around that constant in the third; no concurrency) and an enumerated family of 32 boundary schedules does the same with a scripted schedule (the scrape is driven to the point between extracting and sorting the full period, one or two whole observations of the next period are made there, then the run continues randomly) for every combination of prefill size, sampled or not, and which of the two buffers is live. Periods are reconstructed from the lock log (an observation belongs to the read - of whichever reader - that next takes the histogram's write lock). Per read: count = observations of the period, kept consistent, average, min and max equal, every percentile within [min,max] and one of the period's observations; counters equal the sum / number of increments; in a third of the runs with two or more observers every observer first registers a counter of its own (concurrent registration) and counts on it: it must be reported under its own name with its own sum. 20% bulk runs (no yields): 1..40 or {1,2,3,32767,32768,32769} (thorough also 65536, 65537, 100000) observations per period, several periods, three value distributions. 10% supplementary pure-input sweep (not simulation): bucket index read back through the bhist_* counters is non-decreasing in the value and its upper bound, from a table regenerated from the published Spectator algorithm, is >= the value. Not claimed: asm vs portable bit count; literal data-race freedom. Distinct = distinct plan hash",
 		Real:       []string{"metrics (counters, histograms, bucket histograms, /metrics endpoint via http.DefaultServeMux)"},
 		Stub:       []string{"sync/atomic and sync.RWMutex of package metrics (yield points owned by the kernel)", "observer and reader tasks", "HTTP transport (httptest.ResponseRecorder)"},
 		RaceTest:   "TestRaceMetrics",
